@@ -524,4 +524,74 @@ func TestCloseReal(t *testing.T) {
 		}()
 		out.Add("closereal-race-"+tn, rec.Ev{"tran": tn}, tn+" close racing with connections", sim.Result{Lines: r.Lines(), Status: status, Detail: detail})
 	}
+	// the dialing side: a server that accepts the connection and never says anything; the socket that was
+	// dialing it is closed - nothing of that socket may be left running while the server just sits there
+	for _, tn := range []string{"tcp", "ipc"} {
+		r := rec.New()
+		status, detail := "ok", ""
+		func() {
+			defer func() {
+				if x := recover(); x != nil {
+					status, detail = "panic", fmt.Sprint(x)
+				}
+			}()
+			r.Emit("rbase", "g", len(waitNoGoroutines(2*time.Second)))
+			var nl net.Listener
+			var err error
+			addr := ""
+			if tn == "tcp" {
+				nl, err = net.Listen("tcp", "127.0.0.1:0")
+				if err == nil {
+					addr = "tcp://" + nl.Addr().String()
+				}
+			} else {
+				path := fmt.Sprintf("%s/verif-silent-%d.sock", os.TempDir(), os.Getpid())
+				_ = os.Remove(path)
+				nl, err = net.Listen("unix", path)
+				addr = "ipc://" + path
+				defer os.Remove(path)
+			}
+			if err != nil {
+				panic(err)
+			}
+			defer nl.Close()
+			var held []net.Conn
+			var hmu sync.Mutex
+			go func() {
+				for {
+					c, err := nl.Accept()
+					if err != nil {
+						return
+					}
+					hmu.Lock()
+					held = append(held, c) // kept open, never read, never written
+					hmu.Unlock()
+				}
+			}()
+			for _, asynch := range []bool{true, false} {
+				s, _ := pair.NewSocket()
+				_ = s.SetOption(mangos.OptionDialAsynch, asynch)
+				go func() { _ = s.Dial(addr) }() // the synchronous Dial stays in the handshake
+				time.Sleep(150 * time.Millisecond)
+				cdone := make(chan error, 1)
+				go func() { cdone <- s.Close() }()
+				select {
+				case err := <-cdone:
+					r.Emit("rclose", "sock", fmt.Sprintf("ds%v", asynch), "r", err)
+				case <-time.After(5 * time.Second):
+					r.Emit("rclose", "sock", fmt.Sprintf("ds%v", asynch), "r", "hung")
+				}
+				g := waitNoGoroutines(2 * time.Second)
+				r.Emit("rdialsilent", "tran", tn, "asynch", asynch, "leaked", len(g), "g", fmt.Sprint(g))
+			}
+			hmu.Lock()
+			for _, c := range held {
+				_ = c.Close()
+			}
+			hmu.Unlock()
+			g := waitNoGoroutines(3 * time.Second)
+			r.Emit("rcensus", "n", len(g), "g", fmt.Sprint(g))
+		}()
+		out.Add("closereal-dialsilent-"+tn, rec.Ev{"tran": tn}, tn+" dialing a silent server", sim.Result{Lines: r.Lines(), Status: status, Detail: detail})
+	}
 }
